@@ -399,7 +399,8 @@ pub fn all_diffs(a: &Value, b: &Value) -> Vec<(String, Value, Value)> {
                 }
             }
             _ => {
-                if a != b {
+                // "ANY" = the expectation is deliberately undetermined (documented misuse)
+                if a != b && *b != Value::String("ANY".into()) && *a != Value::String("ANY".into()) {
                     out.push((path.to_string(), a.clone(), b.clone()));
                 }
             }
@@ -568,6 +569,9 @@ pub struct ReplayOpts {
     /// explicit model dimensions (members, keys); 0 = derive from the first line
     pub m: usize,
     pub k: usize,
+    /// deliberate-misuse configuration (an actor / marker used twice): only the
+    /// validation verdicts (C16, C17) are judged, the convergence obligations do not apply
+    pub misuse: bool,
 }
 
 pub fn parse_dump_line(line: &str) -> Option<Value> {
@@ -828,7 +832,7 @@ impl<'a, E: Engine> Replayer<'a, E> {
 
         // 4. C01 / C20 across behaviours: equal sets of learned ops => equal reads (causal op
         //    delivery) and equal state (any schedule)
-        {
+        if !self.opts.misuse {
             let mut keyv: Vec<String> = sys.know[who - 1]
                 .iter()
                 .map(|i| serde_json::to_string(&E::op_proj(&sys.ops[*i - 1].op, &d)).unwrap())
@@ -964,8 +968,12 @@ impl<'a, E: Engine> Replayer<'a, E> {
         // model verdict <<reads equal, state equal>> at ob.<name>[i][j]..., if the model printed it
         let mv = |v: &Value, idx: usize| -> Option<Value> { v.as_array().and_then(|a| a.get(idx)).cloned() };
 
+        let misuse = self.opts.misuse;
         // C09: re-applying any known op changes nothing (reads, ==)
         for i in sys.know[who - 1].iter() {
+            if misuse {
+                break;
+            }
             let mut c = s.clone();
             let op = sys.ops[*i - 1].op.clone();
             let res = catch(|| {
@@ -988,6 +996,9 @@ impl<'a, E: Engine> Replayer<'a, E> {
             for (q, row) in vop.iter().enumerate() {
                 for (i, expv) in row.as_array().cloned().unwrap_or_default().iter().enumerate() {
                     if i >= sys.ops.len() {
+                        continue;
+                    }
+                    if *expv == json!("ANY") {
                         continue;
                     }
                     let st = &sys.st[q];
@@ -1021,9 +1032,16 @@ impl<'a, E: Engine> Replayer<'a, E> {
             } else {
                 None
             };
-            self.judge(&["C17"], "vm.ok", json!(v1), json!("Ok"), model, h, pend_now, json!({"other": name}));
+            // expected verdict: Ok under correct use; in misuse configurations the spec prints it (vmA)
+            let expvm = if name.starts_with('r') {
+                let q: usize = name[1..].parse().unwrap();
+                ln["vmA"].as_array().and_then(|a| a.get(q - 1)).cloned().unwrap_or(json!("Ok"))
+            } else {
+                json!("Ok")
+            };
+            self.judge(&["C17"], "vm.ok", json!(v1), expvm, model, h, pend_now, json!({"other": name}));
             self.judge(&["C17"], "vm.sym", json!(v1 == v2), json!(true), None, h, pend_now, json!({"other": name}));
-            if ok.is_subset(&sys.know[who - 1]) {
+            if !misuse && ok.is_subset(&sys.know[who - 1]) {
                 let mut c = s.clone();
                 let o2 = (*os).clone();
                 match catch(|| {
@@ -1048,7 +1066,7 @@ impl<'a, E: Engine> Replayer<'a, E> {
 
         // C20: replicas with equal knowledge compare equal with ==
         for q in 0..d.n {
-            if q + 1 != who && sys.know[q] == sys.know[who - 1] {
+            if !misuse && q + 1 != who && sys.know[q] == sys.know[who - 1] {
                 let other = &sys.st[q];
                 let r = catch(|| E::eq(s, other) && E::eq(other, s));
                 let realv = match r {
@@ -1065,7 +1083,7 @@ impl<'a, E: Engine> Replayer<'a, E> {
         }
 
         // C02: merge laws on all triples of jointly reachable states
-        if self.opts.laws {
+        if self.opts.laws && !misuse {
             let mut pool: Vec<&E::S> = sys.st.iter().collect();
             if let Some((ss, _)) = sys.snap.as_ref() {
                 pool.push(ss);
